@@ -95,6 +95,15 @@ check(
     engine="llvm2smt",
 )
 
+check(
+    "C11",
+    "other",
+    "bounded symbolic / typed-token verification of the cache serialisers: (K2a) flat records (CacheMeta, CacheMetaEx with error tuples, DataclassTransformSpec) with every int/bool field a symbolic term are pushed through write->read and serialize->deserialize; the same term must come back in the same field, the reader must consume exactly the writer's token kinds, and the two formats must agree (z3 decides term equality and yields distinguishing field values); (K2b) every module interface of a real build of a feature-rich sample (plus the typeshed modules it imports) is written to a typed token buffer, read back (incl. the lazy extract_symbol skipping, transcribed from the C source), fixed up and written again, the same through JSON, and all streams/dicts must coincide. Counterexamples are replayed through the real librt buffers and json as structural dumps before/after load.",
+    "trusted: z3; the typed token buffer as a model of librt.internal's byte buffers (the byte codec itself is only covered when the K1 section is present); module coverage = sample + imported typeshed modules; byte determinism across hash seeds is C10",
+    "symbolic execution of the real (de)serialisers over a typed token stream with symbolic field terms; z3",
+    "DESIGN.md 4/C11",
+)
+
 ALL = [f"C{i:02d}" for i in range(1, 21)]
 
 
